@@ -113,19 +113,17 @@ def cliParseSrc (args : List (List Char)) : String :=
     else if sys'.stdout == (CliSrc.print_version sys).stdout then (repr Cli.Request.version).pretty
     else "unexpected output"
 
-/-- stand-in for the streaming library functions (not given a meaning in the translation): every call fails -/
-def failingLib : RsCli.StreamLib RsCli.DynRead CliSrc.DynWrite where
-  key_encrypt := fun sys r w _ _ _ _ _ _ _ => (sys, r, w, .error (.Other "not modelled".toList))
-  pass_encrypt := fun sys r w _ _ _ => (sys, r, w, .error (.Other "not modelled".toList))
-  key_decrypt := fun sys r w _ _ _ => (sys, r, w, .error (.Other "not modelled".toList))
-  pass_decrypt := fun sys r w _ _ => (sys, r, w, .error (.Other "not modelled".toList))
-
-/-- run the generated program; `libcall=1` when a streaming library function was reached -/
+/-- run the generated program — `CliSrc.main` over the translated commands of commands.rs over the TRANSLATED streaming
+    functions of encrypt.rs / decrypt.rs (`CliSrc.streamLib`, KestrelModel/RsCliStream.lean) — and print exit code, standard
+    output and the final files exactly as `fmtCli` does for the model (`err` / `sender` are not produced by the translated
+    code: the classes of errors are not part of its result, the sender line goes to standard error).
+    `libcall=1` when a streaming library function was reached (the progress message "Encrypting..." / "Decrypting..." is on
+    standard error); `outoffuel=1` if a `loop` ran out of its budget (never expected). -/
 def cliRunSrc (P : Prims) (rnd : Cli.Rand) (w : Cli.World) (args : List (List Char)) : String :=
   let sys : RsCli.Sys := { args := args.map .unicode, world := w, prims := P, rnd := rnd }
-  let s := CliSrc.main (CliSrc.commands.api failingLib) sys
+  let s := CliSrc.main (CliSrc.commands.api CliSrc.streamLib) sys
   let files := if s.world.files.isEmpty then "-" else ",".intercalate (s.world.files.map fun (p, b) => hexOfStr p ++ ":" ++ hexOrDash b)
-  let reached := s.stderr != [] && (String.fromUTF8? (ByteArray.mk s.stderr.toArray)).any fun t => (t.splitOn "crypting...failed.").length > 1
+  let reached := s.stderr != [] && (String.fromUTF8? (ByteArray.mk s.stderr.toArray)).any fun t => (t.splitOn "crypting...").length > 1
   s!"exit={s.exit.getD 0} stdout={hexOrDash s.stdout} files={files} libcall={if reached then 1 else 0} outoffuel={if s.outOfFuel then 1 else 0}"
 
 /-- scrypt results for (password, salt) pairs seen so far -/
@@ -193,6 +191,9 @@ def selftestCases : List (String × String × String) := [
     "77d6576238657b203b19ca42c18a0497f16b4844e3074ae8dfdffa3fede21442fcd0069ded0948f8326a753a0fc81f17e8d3e0fb2e0d3628cf35e20c38d18906"),
   ("scrypt src (translated scrypt.rs) scrypt.rs vector 1", hex (ScryptSrc.scrypt (ofStr "password") (ofStr "salt") 2 10 10 32),
     "482c858e229055e62f41e0ec819a5ee18bdb87251a534f75acd95ac5e50aa15f"),
+  ("scrypt ffi src (translated src/ffi/src/lib.rs) scrypt.rs vector 1 in a 50-byte memory with guard bytes",
+    hex (FfiSrc.scrypt (unhex "a5a570617373776f7264a573616c74a50000000000000000000000000000000000000000000000000000000000000000a5a5") 2 8 11 4 2 10 10 16 32),
+    "a5a570617373776f7264a573616c74a5482c858e229055e62f41e0ec819a5ee18bdb87251a534f75acd95ac5e50aa15fa5a5"),
   ("chacha20 block rfc8439 2.3.2", hex (chachaBlock (words32le ((List.range 32).map UInt8.ofNat)) 1 (words32le (unhex "000000090000004a00000000"))),
     "10f1e7e4d13b5915500fdd1fa32071c4c7d1f4c733c068030422aa9ac3d46c4ed2826446079faa0914c2d705d98b02a2b5129cd1de164eb9cbd083e8a2503c4e"),
   ("poly1305 rfc8439 2.5.2", hex (poly1305 (unhex "85d6be7857556d337f4452fe42d506a80103808afb0db2fd4abff6af4149f51b") (ofStr "Cryptographic Forum Research Group")),
@@ -272,6 +273,9 @@ def handle (kc : KdfCache) (line : String) : IO String := do
     pure ("ok " ++ hexOrDash (Scrypt.Impl.scrypt (unhex p) (unhex s) n.toNat! r.toNat! pp.toNat! len.toNat!))
   | ["scrypt_src", p, s, n, r, pp, len] =>
     pure ("ok " ++ hexOrDash (ScryptSrc.scrypt (unhex p) (unhex s) n.toNat! r.toNat! pp.toNat! len.toNat!))
+  | ["scrypt_ffi_src", m, pwOff, pwLen, saltOff, saltLen, n, r, pp, dkOff, dkLen] =>
+    pure ("ok " ++ hexOrDash (FfiSrc.scrypt (unhex m) pwOff.toNat! pwLen.toNat! saltOff.toNat! saltLen.toNat!
+      n.toNat! r.toNat! pp.toNat! dkOff.toNat! dkLen.toNat!))
   | ["x25519", k, u] => pure (fmtOpt (X25519.x25519 (unhex k) (unhex u)))
   | ["x25519_pub", k] => pure (fmtOpt (X25519.pubOf (unhex k)))
   | ["aead_seal", k, n, ad, p] => pure ("ok " ++ hex (aeadSeal (unhex k) (unhex n) (unhex ad) (unhex p)))
@@ -435,8 +439,8 @@ def handle (kc : KdfCache) (line : String) : IO String := do
   | ["cli_run_src", files, env, stdin, ra, rb, argv] =>
     -- the GENERATED program (`CliSrc.main` over the translated commands of commands.rs) on this world and argument vector,
     -- printed like `cli_run` (the error class and the sender line are not produced by the translated code: `-`).
-    -- The streaming library functions are not given a meaning in the translation: here they fail, so only the
-    -- commands that do not stream (`key …`, help, version, usage errors, early failures) can be compared with `cli_run`.
+    -- The streaming library functions are the ones translated from encrypt.rs / decrypt.rs (`CliSrc.streamLib`), so ALL
+    -- commands can be compared with `cli_run` (exit / stdout / files).
     let w : Cli.World := { files := parsePairs files,
                            env := (parsePairs env).filterMap fun (k, v) => (String.fromUTF8? (ByteArray.mk v.toArray)).map fun s => (k, s.toList),
                            stdin := unhex stdin }
